@@ -126,6 +126,24 @@ def c11_rest(ctx, facts, nr, memo):
     allowed = {roles.inherent(facts, REQ, "as_reader").id, roles.inherent(facts, REQ, "upgrade").id} | ts["emptiers"]
     for u in sorted(ts["users"] | ts["emptiers"]):
         ctx.ob("C11.3", "data_reader-user|%s" % u, "only as_reader borrows the body reader and only upgrade's helper takes it", u in allowed, u)
+    # by evaluation of the consuming methods: what they hand back to the application does not contain the body reader (it dies with the
+    # Request, releasing the socket reader for the next request), except for upgrade, whose stream is the connection itself
+    import request_rules as RR, absint
+    RM = RR.rmodel(facts)
+    for name in ("respond", "into_writer", "upgrade"):
+        g = RM.methods.get(name)
+        if g is None:
+            continue
+        extra = {(2,): RR.RESPONSE} if name == "respond" else ({(3,): RR.RESPONSE} if name == "upgrade" else {})
+        fg, ps = RM.run(g, extra=extra)
+        rets = [absint.deep(p.state, p.ret()) for p in ps if p.end[0] == "return"]
+        keeps = [symex.sym_str(r)[:80] for r in rets if absint.contains(r, RR.READER)]
+        if name == "upgrade":
+            ok = bool(rets) and len(keeps) == len(rets)
+            ctx.ob("C11.3", "%s|stream-holds-reader" % g.id, "the stream returned by upgrade carries the request's reader (the rest of the connection)", ok, "%s:%d" % (g.file, g.line))
+        else:
+            ctx.ob("C11.3", "%s|reader-not-kept" % g.id, "%s does not keep the body reader alive in what it returns: the unread body is discarded, and the socket reader released, when the method returns" % name,
+                   bool(rets) and not keeps, "%s:%d" % (g.file, g.line), None if not keeps else keeps[0])
     import fused_rules
     fres = fused_rules.fused_rules(ctx, None, None, None)
     fr = fused_rules.fmodel(facts).f0
